@@ -76,6 +76,10 @@ def run(ctx: Ctx):
         for fl in p.flows_of(f):
             for gw in fl.global_writes:
                 ctx.bad("R-C06-4", f, gw, f"write to a module global in worker-reachable code ({' -> '.join(path)})")
+            for mu in fl.mutations:
+                if mu.av.kind == "global" and not mu.via:
+                    ctx.bad("R-C06-4", f, mu.node, f"{mu.how} on the module-level object {mu.av} in worker-reachable code ({' -> '.join(path)}): "
+                            f"shared between the jobs, order of the updates depends on the schedule", key=f"global:{mu.av}|{mu.how}")
     for qn, ent in sorted(entries.items()):
         fl = p.flow(ent)
         shared = [m for m in fl.mutations if m.av.kind == "param"]
@@ -191,6 +195,16 @@ def run(ctx: Ctx):
                     else:
                         ctx.bad("R-C06-6", f, it, "iteration over a builtin set: order depends on PYTHONHASHSEED "
                                 f"(reached via {' -> '.join(path[-3:])})")
+    # other run-dependent sources: object identity / string hashes / clocks / OS entropy must not reach the computation
+    NONDET = ("builtins.id", "builtins.hash", "time.", "os.urandom", "uuid.", "secrets.", "os.getpid", "datetime.")
+    for qn, path in sorted(p.reachable(roots).items()):
+        f = M.functions.get(qn)
+        if f is None:
+            continue
+        for cs in p.all_calls(f):
+            if cs.external and cs.caller is f and any(cs.external == n or (n.endswith(".") and cs.external.startswith(n)) for n in NONDET):
+                ctx.bad("R-C06-6", f, cs.node, f"{cs.external} is reachable from a gamma computation ({' -> '.join(path[-3:])}): its value differs between runs / processes "
+                        f"(object addresses, PYTHONHASHSEED, clock)", key=f"nondet:{cs.external}")
     ctx.ok("R-C06-6", None, None, f"{len(p.reachable(roots))} reachable functions swept for set iteration",
            construct="(sweep)")
 
